@@ -274,6 +274,13 @@ def main(tier, replay=None):
     chk.violation = labelled
     sc.validate_multi(groups)
     chk.violation = orig_violation
+    # SIGKILL of the whole session (main process and pool workers, at an arbitrary moment, also inside a worker's move) of the
+    # unmodified scheduler() with a real process pool; restarted by the real scheduler()
+    specs = [sp for sp in S.real_pool_specs(chk.seed + 79, 16 if q else 120, kills=True, n_values=(3, 4)) if sp.get("kills")]
+    for i, sp in enumerate(specs):
+        if i % 2 == 0:
+            sp["delete_old"] = True
+    sc.real_pool_runs(specs, label="sigkill")
     chk.cov["crash_points_reached"] = reached
     chk.cov["exhaustive"] = True
     chk.assumptions += ["a crash is the death of the main process (os._exit); completed write/rename calls are assumed durable",
